@@ -6,6 +6,30 @@ import os
 HERE = os.path.dirname(os.path.dirname(os.path.abspath(__file__)))
 
 CHECKS = {
+    "C02": dict(
+        category="other",
+        text="B1 reader/writer agreement: the decoder's (width, byte order, signedness) sources in the primitive walker and "
+             "the encoder's resolved defaults and delegation chain (_INT.to_bytes -> value.to_bytes -> int.to_bytes) must "
+             "name the same sources; B2/B3 shape of to_bytes(event)/unmarshal (info and `...` events -> b'', others -> "
+             "event.value.to_bytes(), one-to-one in order); B4 nobody else defines to_bytes; B5 every valid set fits its "
+             "width (exhaustive over 102 primitive types). These are necessary conditions of the round trip; byte equality "
+             "on concrete inputs is a value clause and is not decided.",
+        note="trusted: CPython ast; int.from_bytes/int.to_bytes are mutual inverses for equal (width, order, signedness).",
+        technique="reader/writer agreement by def-use comparison + who-defines rule + exhaustive table check",
+        design="4/C02",
+    ),
+    "C04": dict(
+        category="other",
+        text="V1 CFG dominance in the primitive walker: the is_valid() test dominates the field's event, the error is built "
+             "exactly on the invalid branch and no raise is reachable after the event; V2 the error's path/type/value/valid "
+             "set by def-use; V3 who-may-convert: int.from_bytes and raw byte requests occur only in the primitive walker; "
+             "V4 the membership chain (_INT.is_valid, ValidValues.__contains__/get, NamedRange, enum class membership) has "
+             "the membership meaning; V5 valid-value and naming facets of all 719 pinned types (exhaustive); V6 unknown "
+             "command code -> ValueConstraintViolatedError with ValidValues(TPM_CC). The iff over concrete values is not decided.",
+        note="trusted: CPython ast; E1 model (guards G1-G7); 'first offending field' relies on C01-W4 ordering.",
+        technique="CFG dominance + def-use + who-may-call rule + pinned valid-value tables",
+        design="4/C04",
+    ),
     "C05": dict(
         category="other",
         text="Typestate fixpoint over the CFG (with exception edges) of the byte pump marshal(): every return, raise and "
@@ -55,6 +79,18 @@ CHECKS = {
         note="trusted: CPython ast; itertools.chain/bytes semantics. The byte equation on concrete inputs is not decided.",
         technique="typestate abstract interpretation + path-sensitive reaching definitions at the attach sites",
         design="4/C13",
+    ),
+    "C16": dict(
+        category="other",
+        text="O1 operator table: each of the 26 binary/reflected, 6 comparison, divmod pair, __int__/__index__/__hash__ "
+             "slots of numeric() is defined, installed under its own name and applies the operator its name denotes to "
+             "int(self) and other in the order its reflectedness denotes; O2=B1 byte form sources; O3 width table of all "
+             "primitive types from L (INTn/UINTn sizes, signs, full ranges; nobody else redefines width/sign); O4 NamedRange "
+             "half-open, name = basename.sep.zero-padded hex offset, enum text = Type.member; O5=V4 validity is membership; "
+             "O6 member names/values equal the pinned snapshot. Per-value behaviour is not decided.",
+        note="trusted: CPython ast and the semantics of Python's int operators.",
+        technique="sibling/name-vs-body agreement over the operator table + table checks from the static layout model",
+        design="4/C16",
     ),
     "C17": dict(
         category="proof",
